@@ -280,6 +280,13 @@ def build(src, ctx):
         t = apply_op(h, m, op, U)
         if t is not None:
             trace.append(t)
+    if src.get("wholesale_hg") is not None:
+        # the hypergraph metadata replaced wholesale: the implementation-set fields
+        # ('weighted', 'type') are gone, so an extraction that writes them back into the
+        # source's own dict is visible
+        h.set_hypergraph_metadata(dc(src["wholesale_hg"]))
+        trace.append("set_hypergraph_metadata(%r)" % (src["wholesale_hg"],))
+        ctx.label("source:hypergraph-metadata-replaced")
     return h, m, trace
 
 
@@ -720,6 +727,8 @@ def sources(directed=False, big=False):
         "junk": st.lists(add, min_size=1, max_size=3),
         "drops": st.lists(sel_int, min_size=1, max_size=3),
         "body": body,
+        "wholesale_hg": st.integers(0, 3).flatmap(
+            lambda i: st.none() if i else S.metadata()),
     })
 
     def assemble(r):
@@ -728,6 +737,7 @@ def sources(directed=False, big=False):
             "directed": r["directed"], "weighted": r["weighted"], "universe": r["universe"],
             "hg_meta": r["hg_meta"], "node_meta": [list(t) for t in r["node_meta"]],
             "ops": r["junk"] + drops + r["body"],
+            "wholesale_hg": r["wholesale_hg"],
         }
 
     _CACHE[key] = raw.map(assemble)
